@@ -34,7 +34,7 @@ TLCP_ONLY = ['enc-key-mismatch', 'enc-cert-untrusted']
 
 def plan(tier, seed):
     units = []
-    reps = 1 if tier == 'quick' else 12
+    reps = 2 if tier == 'quick' else 12
     for rep in range(reps):
         for proto in ('tlcp', 'tls12', 'tls13'):
             for role in ('client-verifies-server', 'server-verifies-client'):
